@@ -17,7 +17,8 @@ EXPLANATION = (
     "multisets; D3 cell order: the index map is built from polygon order and a forecast file's cells, flags, "
     "magnitudes and rates are all kept in file order (shared C11-D2, ORDER domain); D4 the gridded / simulation-based "
     "tests read the observed catalog only through its gridded counts, size, name and region, so re-ordering its "
-    "events cannot reach the simulations. NOT decided: 'to rounding' for float sums under permutation.")
+    "events cannot reach the simulations. NOT decided: 'to rounding' for float sums under permutation. "
+    "Also decided (round 5): shared C09-D1/D2 - the quantile reads the test distribution through its sorted form only.")
 CLAUSES = {'D1': 'commutative updates', 'D2': 'equivariance of per-event vectors', 'D3': 'cell order', 'D4': 'observation enters through gridded counts only'}
 TRUSTED = ['CPython ast', 'numpy reductions are permutation-invariant up to rounding', 'scipy.stats.rankdata average/min/max/dense ranks ignore positions; ordinal does not']
 PE, BE, BR, CE = 'csep.core.poisson_evaluations.', 'csep.core.binomial_evaluations.', 'csep.core.brier_evaluations.', 'csep.core.catalog_evaluations.'
